@@ -5,8 +5,9 @@ beyond the end (harness `memfile_t`), and the harness' toy block codec.  This in
 parameters, so nothing here is part of an obligation.
 -/
 import Sqfs.Model.ReaderBounds
+import Sqfs.Model.ReaderTables
 namespace Sqfs.ReaderEnv
-open Sqfs.ReaderBounds
+open Sqfs.ReaderBounds Sqfs.ReaderTables
 
 abbrev Image := ByteArray
 
@@ -57,5 +58,107 @@ def blockLocation (bs : UInt32) (words : Array UInt32) (start filesz : UInt64) (
     | fuel + 1 => if i < index then go (i + 1) fuel (off + (onDiskSize (words.getD i 0)).toUInt64) (filesz - bs.toUInt64) else (off, filesz)
   let (off, fsz) := go 0 index start filesz
   (off, if fsz < bs.toUInt64 then fsz.toUInt32 else bs)
+
+/-! ### contents of the metadata stream (for the routines of `ReaderTables`, whose field values come from it) -/
+
+/-- byte `i` of the unpacked contents of the metadata block at `b` (toy codec of the harness for compressed blocks:
+`out[i] = size > 2 ? in[2 + i % (size - 2)] : 0x5a`) -/
+def metaByte (im : Image) (b : UInt64) (i : Nat) : UInt8 :=
+  let header := le16 im b.toNat
+  let size := (header &&& 0x7FFF).toNat
+  if header &&& 0x8000 != 0 then byteAt im (b.toNat + 2 + i)
+  else if size > 2 then byteAt im (b.toNat + 4 + i % (size - 2)) else 0x5a
+
+/-- the bytes `sqfs_meta_reader_read(m, …, size)` delivers from state `m` (as far as the read gets); the control
+flow is that of `readLoop true` -/
+def envReadLoop (im : Image) (c : MetaCfg) : Nat → MetaSt → UInt64 → Array UInt8 → Array UInt8
+  | 0, _, _, out => out
+  | fuel + 1, m, size, out =>
+    if size == 0 then out
+    else if m.offset > m.dataUsed then out
+    else
+      let p := refill true c m
+      match p.1.r with
+      | .error _ => out
+      | .ok () =>
+        let m1 := p.1.st
+        let diff := if p.2 > size then size else p.2
+        let out := (List.range diff.toNat).foldl (fun o i => o.push (metaByte im m1.blockOffset (m1.offset.toNat + i))) out
+        envReadLoop im c fuel { m1 with offset := m1.offset + diff } (size - diff) out
+
+def envRead (im : Image) (c : MetaCfg) (m : MetaSt) (n : UInt64) : Array UInt8 := envReadLoop im c (n.toNat + 1) m n #[]
+
+def aByte (a : Array UInt8) (i : Nat) : UInt8 := a.getD i 0
+def aLe16 (a : Array UInt8) (i : Nat) : UInt16 := (aByte a i).toUInt16 ||| ((aByte a (i + 1)).toUInt16 <<< 8)
+def aLe32 (a : Array UInt8) (i : Nat) : UInt32 :=
+  (aByte a i).toUInt32 ||| ((aByte a (i + 1)).toUInt32 <<< 8) ||| ((aByte a (i + 2)).toUInt32 <<< 16) |||
+  ((aByte a (i + 3)).toUInt32 <<< 24)
+def aLe64 (a : Array UInt8) (i : Nat) : UInt64 := (aLe32 a i).toUInt64 ||| ((aLe32 a (i + 4)).toUInt64 <<< 32)
+
+/-- `sqfs_super_t` from the first 96 bytes of the image -/
+def parseSuper (im : Image) : Super :=
+  { magic := le32 im 0, inodeCount := le32 im 4, modTime := le32 im 8, blockSize := le32 im 12, fragCount := le32 im 16,
+    compId := le16 im 20, blockLog := le16 im 22, flags := le16 im 24, idCount := le16 im 26, vMajor := le16 im 28,
+    vMinor := le16 im 30, rootRef := le64 im 32, bytesUsed := le64 im 40, idTableStart := le64 im 48,
+    xattrIdTableStart := le64 im 56, inodeTableStart := le64 im 64, dirTableStart := le64 im 72,
+    fragTableStart := le64 im 80, exportTableStart := le64 im 88 }
+
+/-- the seek + read of every iteration of the copy loop of `sqfs_read_table` on the image (the loop stops after the
+first failure): outcome per iteration, and the bytes delivered -/
+def readTableSteps (im : Image) (req : TableReq) : Array (Except Err Unit) × Array UInt8 :=
+  let bc := tableBlockCount req.tableSize
+  let c : MetaCfg := ⟨req.lower, req.upper, metaSrc im⟩
+  let rec go (fuel : Nat) (m : MetaSt) (left : UInt64) (blk : Nat) (steps : Array (Except Err Unit)) (out : Array UInt8) :
+      Array (Except Err Unit) × Array UInt8 :=
+    match fuel with
+    | 0 => (steps, out)
+    | fuel + 1 =>
+      if left == 0 then (steps, out)
+      else
+        let start := le64 im (req.location.toNat + 8 * blk)
+        let r := seek c m start 0
+        match r.r with
+        | .error e => (steps.push (.error e), out)
+        | .ok () =>
+          let diff : UInt64 := if (8192 : UInt64) > left then left else 8192
+          let r2 := mread true c r.st diff
+          match r2.r with
+          | .error e => (steps.push (.error e), out)
+          | .ok () => go fuel r2.st (left - diff) (blk + 1) (steps.push (.ok ())) (out ++ envRead im c r.st diff)
+  go (bc.toNat + 1) MetaSt.init req.tableSize 0 #[] #[]
+
+/-- `sqfs_read_table` on the image: the locations are read (`read_at`), then the copy loop is `readTable` of
+`ReaderBounds` (the function the theorems `read_table_safe` / `read_table_terminates` are about) with the outcome of
+its steps taken from the meta reader model on the image.  Status (with the error of the failing step), table
+contents, accesses of the loop. -/
+def readTableEnv (im : Image) (req : TableReq) : Except Err (Array UInt8) × List Access :=
+  let bc := tableBlockCount req.tableSize
+  if readFails im req.location (8 * bc.toNat) then (.error .io, [])
+  else
+    let (steps, content) := readTableSteps im req
+    let r := readTable req.tableSize (fun i => match steps[i]? with | some (.ok ()) => true | _ => false)
+    match r.1 with
+    | .ok () => (.ok content, r.2)
+    | .error e =>
+      let named := steps.foldl (fun acc st => match acc, st with
+        | none, .error e' => some e'
+        | acc, _ => acc) (none : Option Err)
+      (.error (named.getD e), r.2)
+
+/-- what the key-value stream of the xattr reader holds at the position of `m` -/
+def envKvAns (im : Image) (c : MetaCfg) (xs : UInt64) (m : MetaSt) : KvAns :=
+  let k := envRead im c m 4
+  let ktype := aLe16 k 0
+  let ksize := aLe16 k 2
+  let m1 := (mread true c m 4).st
+  let m2 := (mread true c m1 ksize.toUInt64).st
+  let v := envRead im c m2 4
+  if isOol ktype then
+    let m3 := (mread true c m2 4).st
+    let ref := aLe64 (envRead im c m3 8) 0
+    let m4 := (mread true c m3 8).st
+    let m5 := (seek c m4 (xs + (ref >>> 16)) (ref &&& 0xFFFF)).st
+    ⟨ktype, ksize, aLe32 (envRead im c m5 4) 0, ref⟩
+  else ⟨ktype, ksize, aLe32 v 0, 0⟩
 
 end Sqfs.ReaderEnv
